@@ -18,7 +18,9 @@ class Infeasible(Exception):
 
 
 class Driver:
-  def __init__(self, pre=(), max_paths=20000, timeout_ms=10000):
+  def __init__(self, pre=(), max_paths=20000, timeout_ms=10000, budget_s=300.0):
+    import time
+    self.deadline = time.time() + budget_s      # wall-clock budget for the whole exploration: a fork explosion ends as an error, never as a silent pass
     self.pre = list(pre)
     self.trace = []     # [choice, other_pending]
     self.pos = 0
@@ -73,6 +75,9 @@ class Driver:
       n += 1
       if n >= self.max_paths:
         raise RuntimeError('FX: path limit exceeded')
+      import time
+      if time.time() > self.deadline:
+        raise RuntimeError('FX: time budget exceeded after %d paths' % n)
       while self.trace and not self.trace[-1][1]:
         self.trace.pop()
       if not self.trace:
@@ -291,6 +296,33 @@ class NumpyProxy:
     if a_.dtype == object:
       return self._np.array([False if isinstance(v, Sym) else bool(self._np.isinf(v)) for v in a_.reshape(-1)]).reshape(a_.shape)
     return self._np.isinf(a)
+
+  def _close(self, a, b, rtol, atol):
+    a_, b_ = self._np.broadcast_arrays(self._np.asarray(a, dtype=object), self._np.asarray(b, dtype=object))
+    out = []
+    for x, y in zip(a_.reshape(-1), b_.reshape(-1)):
+      if isinstance(x, Sym) or isinstance(y, Sym):
+        xe, ye = _coerce(x, y)
+        d = xe - ye
+        ay = z3.If(ye >= 0, ye, -ye)
+        tol = lift(float(atol)) + lift(float(rtol)) * ay
+        out.append(z3.And(d <= tol, -d <= tol))
+      else:
+        out.append(z3.BoolVal(bool(self._np.isclose(float(x), float(y), rtol=rtol, atol=atol))))
+    return out, a_.shape
+
+  def isclose(self, a, b, rtol=1e-05, atol=1e-08, **kw):
+    """elementwise |a - b| <= atol + rtol |b| as ONE symbolic Bool per element (numpy's own isclose would fork several times per element)"""
+    out, shp = self._close(a, b, rtol, atol)
+    r = self._np.empty(len(out), dtype=object)
+    for i, c in enumerate(out):
+      c = z3.simplify(c)
+      r[i] = True if z3.is_true(c) else False if z3.is_false(c) else Sym(c)
+    return r.reshape(shp)
+
+  def allclose(self, a, b, rtol=1e-05, atol=1e-08, **kw):
+    out, _ = self._close(a, b, rtol, atol)
+    return bool(Sym(z3.And(out))) if out else True
 
   def __getattr__(self, k):
     return getattr(self._np, k)
